@@ -404,15 +404,15 @@ def _check_genes(problems: _Problems, orfs: list, region, model: dict, spec: dic
             problems.add("gene_exactly_once", {**context, "gene": name, "times": len(got), "split_times": len(halves)})
             continue
         pieces = got + halves
-        for orf in pieces:
-            if not js_range[0] <= orf["start"] <= orf["end"] <= js_range[1]:
-                problems.add("gene_in_range", {**context, "gene": name, "location": loc,
-                                               "orf": {k: orf[k] for k in ("start", "end", "locus_tag")}})
         straddles = (mode == "cross" and not spans
                      and not any(ring.contains({"parts": [part]}, loc) for part in model["parts"]))
         if straddles:
             classes.append("unjudged_gene_with_exons_on_both_sides_of_the_region_gap")
             continue
+        for orf in pieces:
+            if not js_range[0] <= orf["start"] <= orf["end"] <= js_range[1]:
+                problems.add("gene_in_range", {**context, "gene": name, "location": loc,
+                                               "orf": {k: orf[k] for k in ("start", "end", "locus_tag")}})
         if halves:
             classes.append("gene_split")
             one, two = got[0], halves[0]
